@@ -1463,11 +1463,17 @@ void overlapping_schwarz_csr(const I Ap[], const int Ap_size,
 {
 
     //T zero = 0.0;
-    T *rsum = new T[nrows];
-    T *Dinv_rsum = new T[nrows];
+    // work arrays must hold the largest subdomain (which may list an index more than once)
+    I max_size = nrows;
+    for(I d = 0; d < nsdomains; d++) {
+        if(Sp[d+1] - Sp[d] > max_size) {
+            max_size = Sp[d+1] - Sp[d]; }
+    }
+    T *rsum = new T[max_size];
+    T *Dinv_rsum = new T[max_size];
 
     // Initialize rsum and Dinv_rsum
-    for(I k = 0; k < nrows; k++) {
+    for(I k = 0; k < max_size; k++) {
         rsum[k] = 0.0;
         Dinv_rsum[k] = 0.0;
     }
